@@ -4,7 +4,9 @@ use parking_lot::RwLock;
 use super::RuntimeResult;
 use crate::{
     io::{
-        logger::{Alter, Begin, Commit, Create, Delete, DropOp, End, Insert, Operation, Update},
+        logger::{
+            Abort, Alter, Begin, Commit, Create, Delete, DropOp, End, Insert, Operation, Update,
+        },
         pager::{BtreeBuilder, SharedPager},
     },
     multithreading::coordinator::{Snapshot, TransactionHandle},
@@ -125,7 +127,7 @@ impl TransactionLogger {
     }
 
     pub(crate) fn log_abort(&self) -> RuntimeResult<()> {
-        self.log_operation(Commit)?;
+        self.log_operation(Abort)?;
         Ok(())
     }
 
